@@ -118,8 +118,9 @@ def maybe_lzma_decompress(path) -> str:
   else:
     log(f'Decompressing {path!r} to {decompressed_path!r}')
     with lzma.open(path, 'rb') as fi:
-      with open(decompressed_path, 'wb') as fo:
+      with open(decompressed_path + '.partial', 'wb') as fo:
         shutil.copyfileobj(fi, fo)
+    os.rename(decompressed_path + '.partial', decompressed_path)
   return decompressed_path
 
 
